@@ -181,13 +181,17 @@ def cachePts (c : Cache) (k : Key) : List (TS × Val) :=
 def flushBlocks (c : Cache) : List Block :=
   (cacheKeys c).flatMap (fun k => mkBlocks k (cachePts c k))
 
-/-- WriteSnapshot: an empty cache writes nothing and consumes no generation -/
+/-- WriteSnapshot: an empty cache writes nothing and consumes no generation.
+    (Compactor.writeNewFiles returns no file when the iterator has no key; a
+    non-empty cache always has one, so the inner test never fires — it keeps
+    "every file has a block" a one-line invariant.) -/
 def Shard.flush (s : Shard) : Shard :=
   if s.cache.isEmpty then s else
   { s with
     cache := []
-    files := s.files ++ [{ gen := s.nextGen, seq := 1, mtime := .fresh,
-                           blocks := flushBlocks s.cache, tombs := [], tombM := none }]
+    files := s.files ++ (if (flushBlocks s.cache).isEmpty then [] else
+      [{ gen := s.nextGen, seq := 1, mtime := .fresh,
+         blocks := flushBlocks s.cache, tombs := [], tombM := none }])
     nextGen := s.nextGen + 1 }
 
 /-! ## Writes -/
@@ -512,7 +516,7 @@ def step (st : State) : Op → State × Obs
     if k ≥ nKeys || n = 0 then (st, .badOp) else
     ({ st with src := st.src.write k t0 step n v0 }, .ok)
   | .delete ks lo hi =>
-    if ks.any (· ≥ nKeys) then (st, .badOp) else
+    if ks.any (· ≥ nKeys) || lo > hi then (st, .badOp) else
     ({ st with src := st.src.delete ks lo hi }, .ok)
   | .snap => ({ st with src := st.src.flush }, .ok)
   | .compact => ({ st with src := st.src.compact }, .ok)
